@@ -27,6 +27,8 @@ Crash model (contract, repeated in each property's ASSUMPTIONS):
   * data and directory operations are durable in program order (no fsync reordering);
   * after the crash the process is dead: *every* later call on this filesystem raises ``Crash``
     again, so code that swallows the exception (``except BaseException``) cannot change the disk.
+A second fault kind, ``arm_interrupt(at, exc)``, raises one harness-defined BaseException at a step and
+lets the process live on (the filesystem keeps working): an interruption the application survives.
 ``Crash`` derives from BaseException so that ``except Exception``/``except OSError`` in the code
 under test cannot swallow it; the harness asks ``fs.crashed`` instead of relying on propagation.
 """
@@ -261,11 +263,12 @@ class FakeFile:
         """one mutating step: data goes to the inode, or only its first `cut` units if this is the crash"""
         fs = self.fs
         n = len(data)
-        if fs._tick(("write", self.name, n)):
+        k = fs._tick(("write", self.name, n))
+        if k:
             cut = fs.cut
             if cut > 0:
                 self._store(data if cut >= n else data[:cut])
-            raise Crash()
+            raise fs._fault(k)
         self._store(data)
 
     def _flush(self):
@@ -474,6 +477,10 @@ class FakeFS:
         self.crash_at = -1
         self.cut = 0
         self.crashed = False
+        self.interrupt_at = -1
+        self.interrupt_exc = None
+        self.interrupt_ops = ()
+        self.interrupted = False
         self.epoch = 0
         self.log = []               # (epoch, step, op tuple) of every mutating call
         self._ino = 0
@@ -500,20 +507,40 @@ class FakeFS:
         if self.crashed:
             raise Crash()
 
+    def arm_interrupt(self, at, exc, ops=("create", "truncate-open", "write")):
+        """second fault kind: the mutating step numbered `at` (counted like crash steps), if its kind is in
+        `ops`, raises ONE instance of `exc` (a BaseException subclass of the harness) instead of taking
+        effect -- a write leaves its first `cut` units, as for a crash -- and the process LIVES ON: the
+        filesystem keeps working, nothing is rebooted.  Models a signal-like interruption that the
+        application survives."""
+        self.interrupt_at = at
+        self.interrupt_exc = exc
+        self.interrupt_ops = tuple(ops)
+        self.interrupted = False
+
     def _tick(self, what):
-        """count one mutating step; True when this very step is the crash"""
+        """count one mutating step; 1 when this very step is the crash, 2 when it is the interruption"""
         self._alive()
         self.log.append((self.epoch, self.steps, what))
         if self.steps == self.crash_at:
             self.steps += 1
             self.crashed = True
-            return True
+            return 1
+        if (self.interrupt_exc is not None and not self.interrupted and what[0] in self.interrupt_ops
+                and self.steps == self.interrupt_at):
+            self.steps += 1
+            self.interrupted = True
+            return 2
         self.steps += 1
-        return False
+        return 0
+
+    def _fault(self, kind):
+        return Crash() if kind == 1 else self.interrupt_exc()
 
     def _step(self, what):
-        if self._tick(what):
-            raise Crash()
+        k = self._tick(what)
+        if k:
+            raise self._fault(k)
 
     # -- content helpers
     def _len(self, c):
@@ -1133,6 +1160,22 @@ def selftest():
         pass
     fs.reboot()
     assert fs.get("/x") == b"ab" and not fs.crashed
+    class _Int(BaseException):
+        pass
+    fs = FakeFS()
+    fs.arm(-1, cut=1)
+    fs.arm_interrupt(1, _Int)
+    try:
+        with fs.open("/i", "wb") as f:
+            f.write(b"abc")
+        raise AssertionError("no interrupt")
+    except _Int:
+        pass
+    assert not fs.crashed and fs.get("/i") == b"a"
+    fs.remove("/i")             # the process lives on
+    with fs.open("/i", "wb") as f:
+        f.write(b"xyz")
+    assert fs.get("/i") == b"xyz"
     r = Rope.payload(0, 3) + Rope.payload(1, 2)
     assert len(r) == 5 and r[:4].norm() == [(0, 0, 3), (1, 0, 1)] and r[4:].norm() == [(1, 1, 2)]
     assert r == Rope.payload(0, 3) + Rope.payload(2, 0) + Rope.payload(1, 2) and r != Rope.payload(0, 3)
